@@ -731,6 +731,11 @@ class Interp:
                     pass
                 lo, hi = D.get_iv(st, res)
                 D.set_iv(st, res, max(lo, r[0], tr[0]), min(hi, r[1], tr[1]))
+                lo, hi = D.get_iv(st, res)
+                if lo == hi and res not in D.CONSTVAL and not st.dead:
+                    # on this path the quotient / remainder is one known number (e.g. after a comparison of the same quotient): use it, so that
+                    # later arithmetic folds exactly as it does when the code stores the compared value in a variable
+                    return ('i', D.const_vid(int(lo)), tn)
                 return ('i', res, tn)
         elif base in ('BitAnd', 'BitOr', 'BitXor') and tn == 'bool':
             if base == 'BitAnd':
@@ -2052,7 +2057,7 @@ class Interp:
                 return self.call_body(st, callee[1], spread, site)
             if callee[0] == 'fn':
                 return self.do_call(st, callee[1], callee[1], spread, dty, site)
-            if self.opaque_callables and callee[0] == 'top' and not self.stack[1:]:
+            if self.opaque_callables and callee[0] == 'top' and all(f_.startswith(self.stack[0][0] + '::{closure') for f_, _s in self.stack[1:]):
                 # a callable *parameter of the analysed entry*: its own panics belong to whoever passes it (the callers'
                 # closures are analysed at their call sites); its result is unknown
                 self.note('opaque callable parameter called')
@@ -2100,6 +2105,18 @@ class Interp:
             if pred(name):
                 self.models[name] = fnc
                 return fnc
+        # `<T as Trait>::method` of a std type without a row of its own: the row of the trait method (a specialised implementation, e.g.
+        # slice::Iter::position, has the documented behaviour of the trait method)
+        if name.startswith('<') and ' as std::iter::' in name and '>::' in name:
+            trait_ = name[name.index(' as ') + 4:name.rindex('>::')]
+            if '<' in trait_:
+                trait_ = trait_[:trait_.index('<')]
+            generic = trait_ + '::' + name.rsplit('::', 1)[1]
+            if generic != name:
+                m = self.find_model(generic)
+                if m is not None:
+                    self.models[name] = m
+                    return m
         return None
 
     def call_closure(self, st, clo, args, site):
